@@ -203,6 +203,55 @@ impl SS for sst::Setsum {
     }
 }
 
+/// The same types with every operand built by `from_hexdigest` on the hex text of the digest: the
+/// second constructor must produce values that obey the same laws (in particular for columns in
+/// p..2^32-1, which hex text can carry just as well as a digest can).
+macro_rules! via_hex {
+    ($w:ident, $inner:ty, $name:expr) => {
+        #[derive(Clone, Copy, Debug, Default, PartialEq)]
+        struct $w($inner);
+        impl std::ops::Add for $w {
+            type Output = Self;
+            fn add(self, o: Self) -> Self {
+                $w(self.0 + o.0)
+            }
+        }
+        impl std::ops::Sub for $w {
+            type Output = Self;
+            fn sub(self, o: Self) -> Self {
+                $w(self.0 - o.0)
+            }
+        }
+        impl std::ops::AddAssign for $w {
+            fn add_assign(&mut self, o: Self) {
+                self.0 += o.0;
+            }
+        }
+        impl std::ops::SubAssign for $w {
+            fn sub_assign(&mut self, o: Self) {
+                self.0 -= o.0;
+            }
+        }
+        impl SS for $w {
+            const NAME: &'static str = $name;
+            fn from_digest(d: [u8; 32]) -> Self {
+                $w(<$inner>::from_hexdigest(&hex(&d)).expect("from_hexdigest refuses 64 hex digits"))
+            }
+            fn digest(&self) -> [u8; 32] {
+                self.0.digest()
+            }
+            fn hexdigest(&self) -> String {
+                self.0.hexdigest()
+            }
+            fn from_hexdigest(s: &str) -> Option<Self> {
+                <$inner>::from_hexdigest(s).map($w)
+            }
+        }
+    };
+}
+via_hex!(SetsumViaHex, setsum::Setsum, "setsum-via-hexdigest");
+via_hex!(SstSetsumViaHex, sst::Setsum, "sst-setsum-via-hexdigest");
+
 fn mk<S: SS>(c: &Cols) -> S {
     S::from_digest(cols_to_digest(c))
 }
@@ -913,6 +962,10 @@ fn run_case(cx: &Ctx, case: &Value) -> Vec<Finding> {
         "boundary" => {
             let arity = case["arity"].as_u64().unwrap_or(1);
             match (arity, ty) {
+                (1, "setsum-via-hexdigest") => laws_unary::<SetsumViaHex>(cx, &cols("a"), &mut calls),
+                (1, "sst-setsum-via-hexdigest") => laws_unary::<SstSetsumViaHex>(cx, &cols("a"), &mut calls),
+                (2, "setsum-via-hexdigest") => laws_pair::<SetsumViaHex>(cx, &cols("a"), &cols("b"), &mut calls),
+                (2, "sst-setsum-via-hexdigest") => laws_pair::<SstSetsumViaHex>(cx, &cols("a"), &cols("b"), &mut calls),
                 (1, "setsum") => laws_unary::<setsum::Setsum>(cx, &cols("a"), &mut calls),
                 (1, _) => laws_unary::<sst::Setsum>(cx, &cols("a"), &mut calls),
                 (2, "setsum") => laws_pair::<setsum::Setsum>(cx, &cols("a"), &cols("b"), &mut calls),
@@ -1509,7 +1562,7 @@ fn main() {
             rep.transitions += calls;
         }
         let mut idx: Vec<(usize, usize)> = vec![];
-        for t in 0..2 {
+        for t in 0..4 {
             for i in 0..vals.len() {
                 idx.push((t, i));
             }
@@ -1518,10 +1571,11 @@ fn main() {
         idx.rotate_left(r);
         let vr = &vals;
         let part = vcore::parallel(idx, threads, mkrep, |(t, ai), rep| {
-            if *t == 0 {
-                sweep12::<setsum::Setsum>(cxr, vr, *ai, rep)
-            } else {
-                sweep12::<sst::Setsum>(cxr, vr, *ai, rep)
+            match *t {
+                0 => sweep12::<setsum::Setsum>(cxr, vr, *ai, rep),
+                1 => sweep12::<sst::Setsum>(cxr, vr, *ai, rep),
+                2 => sweep12::<SetsumViaHex>(cxr, vr, *ai, rep),
+                _ => sweep12::<SstSetsumViaHex>(cxr, vr, *ai, rep),
             }
         });
         total.merge(part);
